@@ -2,6 +2,9 @@
 //! stun-types / stun-proto crates in /repo.  It executes and records; it holds no expectations.
 mod agent;
 mod tcp;
+mod table;
+mod codec;
+mod ext;
 
 fn main() {
     // panics inside the code under test are data (recorded in the output), not noise on stderr
@@ -14,6 +17,8 @@ fn main() {
     match args[1].as_str() {
         "agent" => agent::main_agent(&args[2..]),
         "tcp" => tcp::main_tcp(&args[2..]),
+        "table" => table::main_table(&args[2..]),
+        "codec" => codec::main_codec(&args[2..]),
         m => {
             eprintln!("unknown mode {m}");
             std::process::exit(2);
